@@ -57,20 +57,26 @@ theorem frames_of_file (f : Spec.K7.SFile) :
 
 /-- the extractor over the frames of a list of files: every file written once, in order, intact -/
 theorem readLoop_files (dir : Str) (fs : List Spec.K7.SFile) : ∀ (s : RState),
-    (∀ f ∈ fs, NameOK f.name f.ext) →
+    (∀ f ∈ fs, NameOK f.name f.ext) → (∀ f ∈ fs, collides s.keep (pathJoin dir (f.name ++ [46] ++ f.ext)) = false) →
     ∃ s', readLoop true dir s ((fs.flatMap Spec.K7.fileBlocks).map (fun b => Spec.K7.frame b.1 b.2)) = (.ret 0, s')
       ∧ s'.writes = s.writes ++ fs.map (fun f => (pathJoin dir (f.name ++ [46] ++ f.ext), f.content))
       ∧ (s.l.verbose = false → s'.out = s.out ++ fs.map (fun f => f.name ++ [46] ++ f.ext))
       ∧ s'.out.length = s.out.length + fs.length := by
   induction fs with
-  | nil => intro s _; exact ⟨s, by simp [readLoop], by simp, by simp, by simp⟩
+  | nil => intro s _ _; exact ⟨s, by simp [readLoop], by simp, by simp, by simp⟩
   | cons f rest ih =>
-    intro s hn
+    intro s hn hk
     simp only [List.flatMap_cons, List.map_append, frames_of_file]
     obtain ⟨l', e, hv, _⟩ := readLoop_file dir f.name f.ext f.kind f.mode (Spec.K7.chunks254 f.content)
-      (hn f (by simp)) s ((rest.flatMap Spec.K7.fileBlocks).map (fun b => Spec.K7.frame b.1 b.2))
+      (hn f (by simp)) s ((rest.flatMap Spec.K7.fileBlocks).map (fun b => Spec.K7.frame b.1 b.2)) (hk f (by simp))
     rw [e]
-    obtain ⟨s', e', hw, ho, hl⟩ := ih _ (fun f' hf' => hn f' (by simp [hf']))
+    obtain ⟨s', e', hw, ho, hl⟩ := ih
+      { l := l', keep := s.keep,
+        out := s.out ++ [lineOf s.l.verbose ⟨f.name, f.ext, f.kind, f.mode⟩ (s.l.blockIndex + 1)
+                          ((Spec.K7.chunks254 f.content).map List.length).sum (Spec.K7.chunks254 f.content).length],
+        desc := some ⟨f.name, f.ext, f.kind, f.mode⟩, content := (Spec.K7.chunks254 f.content).flatten,
+        writes := s.writes ++ [(pathJoin dir (f.name ++ [46] ++ f.ext), (Spec.K7.chunks254 f.content).flatten)] }
+      (fun f' hf' => hn f' (by simp [hf'])) (fun f' hf' => hk f' (by simp [hf']))
     refine ⟨s', e', ?_, ?_, ?_⟩
     · rw [hw]; simp [C03.chunks_concat]
     · intro hq
@@ -84,7 +90,8 @@ theorem readLoop_files (dir : Str) (fs : List Spec.K7.SFile) : ∀ (s : RState),
     in order, and list names exactly those files in the order given. -/
 theorem roundtrip (w : World) (v1 v2 : Bool) (archive : Str) (into : Option Str) (srcs : List Str)
     (hr : AllReadable w srcs) (hn : ValidNames srcs)
-    (hfit : Spec.K7.encSize (srcs.map (C03.specFile w)) < 21504) :
+    (hfit : Spec.K7.encSize (srcs.map (C03.specFile w)) < 21504)
+    (hk : ∀ s ∈ srcs, samePath (pathJoin (targetDirOf archive into) (catalogName s)) archive = false) :
     ∃ tape, (inject w v1 archive srcs).writes = [(archive, tape)]
       ∧ (extract v2 archive into tape).status = .ret 0
       ∧ (extract v2 archive into tape).writes
@@ -97,18 +104,23 @@ theorem roundtrip (w : World) (v1 v2 : Bool) (archive : Str) (into : Option Str)
     simp only [List.mem_map] at hf
     obtain ⟨s, hs, rfl⟩ := hf
     exact hn s hs
-  have hx : ∀ (v : Bool) (dir : Str), ∃ s', readLoop true dir { l := { verbose := v } } (readAll (Spec.K7.tape (srcs.map (C03.specFile w)))) = (.ret 0, s')
+  have hx : ∀ (v : Bool) (dir : Str) (k : Option Str), (∀ s ∈ srcs, collides k (pathJoin dir (catalogName s)) = false) →
+      ∃ s', readLoop true dir { l := { verbose := v }, keep := k } (readAll (Spec.K7.tape (srcs.map (C03.specFile w)))) = (.ret 0, s')
       ∧ s'.writes = srcs.map (fun s => (pathJoin dir (catalogName s), contentOf w s))
       ∧ (v = false → s'.out = srcs.map catalogName) := by
-    intro v dir
+    intro v dir k hcol
     rw [created_tape_blocks]
-    obtain ⟨s', e, hw, ho, _⟩ := readLoop_files dir (srcs.map (C03.specFile w)) { l := { verbose := v } } hnames
+    obtain ⟨s', e, hw, ho, _⟩ := readLoop_files dir (srcs.map (C03.specFile w)) { l := { verbose := v }, keep := k } hnames (by
+      intro f hf
+      simp only [List.mem_map] at hf
+      obtain ⟨s, hs, rfl⟩ := hf
+      exact hcol s hs)
     refine ⟨s', e, ?_, ?_⟩
     · rw [hw]; simp [List.map_map, C03.specFile, catalogName, Function.comp_def]
     · intro hv; rw [ho hv]; simp [List.map_map, C03.specFile, catalogName, Function.comp_def]
-  obtain ⟨sx, ex, hwx, _⟩ := hx v2 (targetDirOf archive into)
-  obtain ⟨sq, eq, _, hoq⟩ := hx false []
-  have hl := C08.list_extract_agree_dir false [] _ (by rw [eq])
+  obtain ⟨sx, ex, hwx, _⟩ := hx v2 (targetDirOf archive into) (some archive) hk
+  obtain ⟨sq, eq, _, hoq⟩ := hx false [] none (fun _ _ => rfl)
+  have hl := C08.list_extract_agree_dir false [] _ none (by rw [eq])
   refine ⟨?_, ?_, hl.1, ?_⟩
   · simp only [extract]; rw [ex]
   · simp only [extract]; rw [ex]; exact hwx
@@ -153,11 +165,12 @@ theorem contentAfter_of_nodup : ∀ (writes : List (Str × Bytes)), (writes.map 
 theorem roundtrip_directory (w : World) (v1 v2 : Bool) (archive : Str) (into : Option Str) (srcs : List Str)
     (hr : AllReadable w srcs) (hn : ValidNames srcs)
     (hfit : Spec.K7.encSize (srcs.map (C03.specFile w)) < 21504)
-    (hd : (srcs.map fun s => pathJoin (targetDirOf archive into) (catalogName s)).Nodup) :
+    (hd : (srcs.map fun s => pathJoin (targetDirOf archive into) (catalogName s)).Nodup)
+    (hk : ∀ s ∈ srcs, samePath (pathJoin (targetDirOf archive into) (catalogName s)) archive = false) :
     ∃ tape, (inject w v1 archive srcs).writes = [(archive, tape)]
       ∧ ∀ s ∈ srcs, contentAfter (extract v2 archive into tape).writes (pathJoin (targetDirOf archive into) (catalogName s))
           = some (contentOf w s) := by
-  obtain ⟨tape, h1, _, h3, _⟩ := roundtrip w v1 v2 archive into srcs hr hn hfit
+  obtain ⟨tape, h1, _, h3, _⟩ := roundtrip w v1 v2 archive into srcs hr hn hfit hk
   refine ⟨tape, h1, ?_⟩
   intro s hs
   rw [h3]
